@@ -73,6 +73,7 @@ type IfaceV struct {
 
 type MapEntry struct {
 	k, v Value
+	lazy bool // maps=lazy: inserted without deciding whether an earlier entry has the same key (x_c03.go)
 }
 type MapObj struct {
 	id      int
